@@ -330,7 +330,9 @@ def r112(ctx) -> None:
     lt = ctx.proj.cls(LISTTREE, 'ListTree')
     f = lt.own_method('_get_pattern')
     if f is None:
-        raise AnchorError('ListTree._get_pattern vanished')
+        if lt.own_method('_matches') is not None:
+            return _r112_offsets(ctx, R, lt)
+        raise AnchorError('ListTree._get_pattern / _matches vanished')
     # fragments appended under `part == '*'` / `part == '%'`
     frag = {}
     for t in walk_local(f.node):
@@ -407,6 +409,140 @@ def r112(ctx) -> None:
             "the pattern ends with '$', which also matches before a "
             "trailing newline: LIST \"\" foo lists the mailbox 'foo\\n' "
             "(use \\Z or fullmatch)")
+
+
+def _r112_offsets(ctx, R, lt) -> None:
+    """The matcher that tracks the set of offsets the pattern parts can end
+    at (no regex).  Each wildcard's transfer function is checked on its
+    syntax tree; an unrecognised shape is UNDECIDED (exit 2), never a pass."""
+    f = lt.own_method('_matches')
+    params = f.params()
+    if len(params) < 3:
+        raise AnchorError('_matches(self, parts, name) signature changed')
+    name = params[2]
+
+    def nt(e) -> str:
+        return txt(e).replace(' ', '')
+    loop = next((x for x in walk_local(f.node) if isinstance(x, ast.For)
+                 and txt(x.iter) == params[1]), None)
+    if loop is None:
+        raise AnchorError('_matches: loop over the pattern parts not found')
+    part = txt(loop.target)
+    br = {}
+    node = loop.body[0] if loop.body and isinstance(loop.body[0], ast.If) \
+        else None
+    while isinstance(node, ast.If):
+        t = node.test
+        if isinstance(t, ast.Compare) and nt(t.left) == part and \
+                isinstance(t.ops[0], ast.Eq):
+            okc, k = const_value(t.comparators[0])
+            if okc:
+                br[k] = node.body
+        if len(node.orelse) == 1 and isinstance(node.orelse[0], ast.If):
+            node = node.orelse[0]
+        else:
+            br['lit'] = node.orelse
+            node = None
+    if '*' not in br or '%' not in br or not br.get('lit'):
+        R.undecided(f, f.node, '_matches: branches for "*", "%" and literal '
+                    'parts', 'if/elif chain on the part not recognised')
+        return
+    # the state variable: initialised to {0}, tested at the end
+    init = [s_ for s_ in f.node.body if isinstance(s_, ast.Assign)
+            and isinstance(s_.value, ast.Set) and len(s_.value.elts) == 1
+            and const_value(s_.value.elts[0]) == (True, 0)]
+    st = txt(init[0].targets[0]) if init else None
+    R.check(st is not None, f, f.node, 'matching starts at offset 0 only',
+            'the offset set is not initialised to {0}: the pattern is not '
+            'anchored at the start of the name')
+    if st is None:
+        return
+    rets = [r for r in walk_local(f.node) if isinstance(r, ast.Return)
+            and r.value is not None and const_value(r.value) != (True, False)]
+    R.check(bool(rets) and all(nt(r.value) == f'len({name})in{st}'
+                               for r in rets), f, f.node,
+            'a match must end exactly at the end of the name',
+            f'the final test is {[txt(r.value) for r in rets]}, not '
+            f'`len({name}) in {st}`: LIST "" foo would also list foo-bar '
+            f'(or nothing)')
+
+    def ranges(body):
+        return [c for s_ in body for c in calls_in(s_, 'range')]
+    # "*": every offset from the earliest reachable one to the END inclusive
+    rs = ranges(br['*'])
+    if len(rs) != 1 or len(rs[0].args) != 2:
+        R.undecided(f, br['*'][0], '"*" reaches every later offset',
+                    'no single range(lo, hi) in the "*" branch')
+    else:
+        lo, hi = rs[0].args
+        R.check(nt(hi) in (f'len({name})+1', f'1+len({name})') and
+                nt(lo) == f'min({st})', f, rs[0],
+                '"*" reaches every offset from the earliest one to the end',
+                f'"*" yields range({txt(lo)}, {txt(hi)}), not '
+                f'range(min({st}), len({name}) + 1): "*" no longer matches '
+                f'zero or more of EVERY character (RFC 3501 6.3.8) — e.g. '
+                f'LIST "" * misses names, or "a*" no longer matches "a"')
+    # "%": from each offset up to (not across) the next delimiter
+    rs = ranges(br['%'])
+    finds = [c for s_ in br['%'] for c in calls_in(s_)
+             if call_name(c) in ('find', 'index') and nt(c.func.value) == name]
+    inner = next((x for s_ in br['%'] for x in ast.walk(s_)
+                  if isinstance(x, ast.For) and nt(x.iter) == st), None)
+    if len(rs) != 1 or len(rs[0].args) != 2 or len(finds) != 1 or \
+            inner is None or len(finds[0].args) != 2:
+        R.undecided(f, br['%'][0], '"%" stops at the hierarchy delimiter',
+                    'range / find(delimiter, start) / loop over the offsets '
+                    'not recognised in the "%" branch')
+    else:
+        start = txt(inner.target)
+        lo, hi = rs[0].args
+        fnd = finds[0]
+        stopv = None
+        for s_ in ast.walk(inner):
+            if isinstance(s_, ast.Assign) and s_.value is fnd:
+                stopv = txt(s_.targets[0])
+        delim_ok = any(nt(v).endswith('_delimiter')
+                       for v in resolve_local(f, fnd.args[0])) or \
+            nt(fnd.args[0]).endswith('_delimiter')
+        # find() == -1 -> no delimiter ahead -> the end of the name
+        fallback = any(isinstance(s_, ast.If) and nt(s_.test) in (
+            f'{stopv}<0', f'{stopv}==-1') and any(
+                isinstance(b, ast.Assign) and nt(b.targets[0]) == stopv
+                and nt(b.value) == f'len({name})' for b in s_.body)
+            for s_ in ast.walk(inner))
+        R.check(stopv is not None and delim_ok and fallback and
+                nt(fnd.args[1]) == start and nt(lo) == start and
+                nt(hi) in (f'{stopv}+1', f'1+{stopv}'), f, rs[0],
+                '"%" reaches every offset up to the next delimiter, and '
+                'none beyond',
+                f'"%" yields range({txt(lo)}, {txt(hi)}) with the stop '
+                f'found by {txt(fnd)}: not "zero or more characters other '
+                f'than the hierarchy delimiter" (RFC 3501 6.3.8) — '
+                f'range({start} + 1, …) makes "%" need one character (LIST '
+                f'"" Sent% omits Sent); a stop beyond the delimiter lets '
+                f'"%" cross hierarchy levels')
+    # literal parts
+    sw = [c for s_ in br['lit'] for c in calls_in(s_, 'startswith')]
+    adv = [x for s_ in br['lit'] for x in ast.walk(s_)
+           if isinstance(x, ast.BinOp) and isinstance(x.op, ast.Add)
+           and f'len({part})' in (nt(x.left), nt(x.right))]
+    if len(sw) != 1 or len(adv) != 1 or len(sw[0].args) != 2:
+        R.undecided(f, br['lit'][0], 'literal parts match exactly',
+                    'startswith(part, offset) / offset + len(part) not '
+                    'recognised')
+    else:
+        off = nt(sw[0].args[1])
+        R.check(nt(sw[0].func.value) == name and nt(sw[0].args[0]) == part
+                and off in (nt(adv[0].left), nt(adv[0].right)), f, sw[0],
+                'a literal part matches itself at the offset and advances '
+                'by its length',
+                f'literal parts are compared with {txt(sw[0])} and advance '
+                f'by {txt(adv[0])}')
+    # callers drop empty parts and fold case for INBOX only
+    lm = lt.own_method('list_matching')
+    uses = [c for c in calls_in(lm.node, '_matches')]
+    R.check(len(uses) >= 2, lm, lm.node, 'list_matching uses _matches for '
+            'INBOX and for other names', 'call sites not found')
 
 
 # ----------------------------------------------------------------------
